@@ -37,7 +37,7 @@ func (w *World) senderAddr(i int) unix.Sockaddr {
 			copy(sa.Addr[:], net.ParseIP("::1").To16())
 		} else {
 			copy(sa.Addr[:], net.ParseIP(fmt.Sprintf("fe80::%x", 16+i)).To16())
-			sa.ZoneId = []uint32{2, 9, 7}[i%3]
+			sa.ZoneId = []uint32{2, 5, 9, 7}[i%4]
 		}
 		return sa
 	}
@@ -269,6 +269,10 @@ func (w *World) onTrafficUDP(c gnet.Conn) gnet.Action {
 func sockaddrToUDPAddr(w *World, sa unix.Sockaddr) net.Addr {
 	switch s := sa.(type) {
 	case *unix.SockaddrInet4:
+		if w.k.Draw("sendto-ip-form", 2) == 1 {
+			// the 16-byte form of an IPv4 address, as net.ParseIP / net.IPv4 produce it
+			return &net.UDPAddr{IP: net.IPv4(s.Addr[0], s.Addr[1], s.Addr[2], s.Addr[3]), Port: s.Port}
+		}
 		return &net.UDPAddr{IP: net.IP(s.Addr[:]), Port: s.Port}
 	case *unix.SockaddrInet6:
 		return &net.UDPAddr{IP: net.IP(s.Addr[:]), Port: s.Port, Zone: w.zoneName(s.ZoneId)}
@@ -332,6 +336,10 @@ func (w *World) checkUDPSent() {
 		}
 		if sent[i].To == nil || !sameSockaddr(sent[i].To, e.to) {
 			w.violate("C08", "reply-address", "%s was sent to %s, want %s", e.what, vsys.AddrKey("udp", sent[i].To), vsys.AddrKey("udp", e.to))
+			if e.what == "SendTo" {
+				// the destination went through the net.Addr -> sockaddr conversion
+				w.violate("C17", "sendto-address-converted-wrongly", "SendTo to %s reached the kernel as %s", vsys.AddrKey("udp", e.to), vsys.AddrKey("udp", sent[i].To))
+			}
 			return
 		}
 		w.probes["udp-replies-checked"]++
